@@ -363,6 +363,7 @@ func (ex *Exec) lookup(st *State, fr *Frame, x *ssa.Lookup) {
 		return
 	}
 	mo := st.mapObj(m)
+	ex.recordAccess(st, fr, Ptr{obj: m.obj}, false)
 	ks, conc := mapKey(k)
 	if conc && !mo.symKeys {
 		if e, ok := mo.m[ks]; ok {
